@@ -309,7 +309,30 @@ def add_rtt(u):
 
 
 # ------------------------------------------------------------------ connection/mod.rs + ack_nak.rs
+def _audit_defaults():
+    """the constructors use four Default impls through hand-written stubs (rtt_tracker_default, congestion_default, cached_quality_default,
+    reconnection_default_with_grace) whose `ensures` ASSUME what the impls give: audited against the source text on every run."""
+    from gen import LostAnchor
+    import rustlex
+    def need(rel, rx, what):
+        if not re.search(rx, rustlex.strip_comments(read_src(rel)), re.S):
+            raise LostAnchor('audit of a stubbed Default impl: %s no longer matches the source' % what)
+    T = K + 'connection/rtt.rs'
+    m = re.search(r'impl Default for RttTracker \{.*?\n\}', rustlex.strip_comments(read_src(T)), re.S)
+    if not m:
+        raise LostAnchor('audit: impl Default for RttTracker not found')
+    for init in ('last_keepalive_sent_ms: 0,', 'waiting_for_keepalive_response: false,', 'last_rtt_measurement_ms: 0,'):
+        if init not in m.group(0):
+            raise LostAnchor('audit of impl Default for RttTracker: `%s` is gone (rtt_tracker_default assumes it)' % init)
+    m = re.search(r'impl Default for CachedQuality \{.*?\n\}', rustlex.strip_comments(read_src(CONN)), re.S)
+    if not m or 'multiplier: 1.0,' not in m.group(0) or 'last_calculated_ms: 0,' not in m.group(0):
+        raise LostAnchor('audit of impl Default for CachedQuality: multiplier 1.0 / last_calculated_ms 0 (cached_quality_default assumes them)')
+    need(K + 'connection/reconnection.rs', r'#\[derive\([^)]*\bDefault\b[^)]*\)\]\s*pub struct ReconnectionState\b', 'derive(Default) on ReconnectionState')
+    need(K + 'connection/congestion/mod.rs', r'#\[derive\([^)]*\bDefault\b[^)]*\)\]\s*pub struct CongestionControl\b', 'derive(Default) on CongestionControl')
+
+
 def add_connection(u):
+    _audit_defaults()
     A = K + 'connection/ack_nak.rs'
     fns = []
     F = fns.append
